@@ -49,6 +49,42 @@ fn chunk(stream: usize, n: usize, kind: u8, sel: u16) -> Vec<u8> {
         6 => b"\n".to_vec(),
         7 => format!("{}one\n{}two\n\n{}three\n", tag, tag, tag).into_bytes(),
         8 => format!("{} crlf line\r\n", tag).into_bytes(),
+        10 => {
+            // poorly compressible text: 140-600 KB of pseudo-random base64-like lines
+            let mut v = tag.into_bytes();
+            let mut x: u64 = 0x9E37_79B9_7F4A_7C15 ^ ((stream as u64) << 32) ^ (n as u64) << 16 ^ sel as u64;
+            let total = 140_000 + (sel as usize % 8) * 60_000;
+            const AB: &[u8] = b"ABCDEFGHIJKLMNOPQRSTUVWXYZabcdefghijklmnopqrstuvwxyz0123456789+/";
+            let mut col = 0;
+            while v.len() < total {
+                x ^= x << 13;
+                x ^= x >> 7;
+                x ^= x << 17;
+                for k in 0..8 {
+                    v.push(AB[((x >> (k * 6)) & 63) as usize]);
+                }
+                col += 8;
+                if col >= 76 {
+                    v.push(b'\n');
+                    col = 0;
+                }
+            }
+            v.push(b'\n');
+            v
+        }
+        11 => {
+            // raw pseudo-random binary, 130-300 KB, newline bytes wherever they fall
+            let mut v = tag.into_bytes();
+            let mut x: u64 = 0xD1B5_4A32_D192_ED03 ^ ((stream as u64) << 24) ^ (n as u64) << 8 ^ sel as u64;
+            let total = 130_000 + (sel as usize % 4) * 57_000;
+            while v.len() < total {
+                x ^= x << 13;
+                x ^= x >> 7;
+                x ^= x << 17;
+                v.extend_from_slice(&x.to_le_bytes());
+            }
+            v
+        }
         _ => format!("{} é unicode ✓ line\n", tag).into_bytes(),
     }
 }
@@ -65,7 +101,7 @@ fn pause() -> impl Strategy<Value = u64> {
 pub fn script(stream: usize, max_steps: usize) -> impl Strategy<Value = Vec<Step>> {
     vec(
         prop_oneof![
-            5 => (prop_oneof![4 => Just(0u8), 4 => Just(1), 1 => Just(2), 1 => Just(3), 1 => Just(4), 2 => Just(5), 1 => Just(6), 2 => Just(7), 1 => Just(8), 1 => Just(9)], any::<u16>())
+            5 => (prop_oneof![8 => Just(0u8), 8 => Just(1), 2 => Just(2), 2 => Just(3), 2 => Just(4), 4 => Just(5), 2 => Just(6), 4 => Just(7), 2 => Just(8), 2 => Just(9), 1 => Just(10), 1 => Just(11)], any::<u16>())
                 .prop_map(|(k, s)| (Some((k, s)), 0u64)),
             3 => pause().prop_map(|p| (None, p)),
         ],
@@ -102,6 +138,7 @@ pub fn strategy(max_tasks: usize, max_steps: usize) -> impl Strategy<Value = Cas
 pub fn classify(streams: &[Vec<Step>]) -> (bool, Vec<&'static str>) {
     let mut mid_line_pause = false;
     let mut long_line = false;
+    let mut big_incompressible = false;
     let mut binary = false;
     let mut no_final_newline = false;
     let active = streams.iter().filter(|s| s.iter().any(|x| matches!(x, Step::W(_)))).count();
@@ -112,6 +149,9 @@ pub fn classify(streams: &[Vec<Step>]) -> (bool, Vec<&'static str>) {
                 Step::W(b) => {
                     if b.len() > 65_536 {
                         long_line = true;
+                    }
+                    if b.len() > 128_000 {
+                        big_incompressible = true;
                     }
                     if b.contains(&0) {
                         binary = true;
@@ -138,6 +178,9 @@ pub fn classify(streams: &[Vec<Step>]) -> (bool, Vec<&'static str>) {
     }
     if binary {
         c.push("binary");
+    }
+    if big_incompressible {
+        c.push("chunk>128KiB-incompressible");
     }
     if no_final_newline {
         c.push("no-final-newline");
@@ -308,7 +351,7 @@ pub fn golden() -> Vec<Case> {
 }
 
 pub fn run(ctx: &mut Ctx) {
-    ctx.rule = "1-4 concurrent tasks = 2-8 streams, each a script of writes (short lines, partial lines, lines > 8 KiB and > 64 KiB, no final newline, binary with NUL/CR/invalid UTF-8/escape bytes, bare \
+    ctx.rule = "1-4 concurrent tasks = 2-8 streams, each a script of writes (short lines, partial lines, lines > 8 KiB and > 64 KiB, 130-600 KB of poorly compressible text or binary (several zstd blocks), no final newline, binary with NUL/CR/invalid UTF-8/escape bytes, bare \
 newlines, multi-line chunks, CRLF, unicode) and pauses biased around the 500 ms flush interval (499/500/501/700/1000/1200, mid-line included). in-process: the real process_reader + Compressor through the capture hook \
 under tokio's paused clock with a seeded select order; real time: the same scripts executed by helper processes under `monorail run`, files located through the result document, `log show` parsed into blocks. \
 oracle: every stored .zst decodes to exactly the concatenation of that stream's writes; log show prints exactly one header per non-empty log followed by those bytes. \
